@@ -25,4 +25,25 @@ def run(prop, jobs=4):
         finally:
             shutil.rmtree(tmp, ignore_errors=True)
             shutil.rmtree(os.path.join(VERIF, 'build', 'self_' + os.path.basename(tmp)), ignore_errors=True)
+    # harmless edits: the property's quick check must stay green
+    from units.mutants import HARMLESS
+    res['harmless'] = 0; res['harmless_red'] = []
+    for (hdr, subs, props) in HARMLESS:
+        if prop not in props: continue
+        tmp = tempfile.mkdtemp(prefix='msm_harmless_')
+        try:
+            shutil.copytree(os.path.join(os.environ.get('VERIF_REPO', '/repo'), 'include'), os.path.join(tmp, 'include'))
+            f = os.path.join(tmp, 'include/boost/msm', hdr); s = open(f).read(); missed = 0
+            for rx, rep in subs:
+                s, n = re.subn(rx, rep, s); missed += (n == 0)
+            if missed:
+                res['skipped'].append(dict(header=hdr, reason='harmless-edit pattern no longer matches the source')); continue
+            open(f, 'w').write(s)
+            res['harmless'] += 1
+            env = dict(os.environ, VERIF_REPO=tmp, VERIF_EVIDENCE_DIR=os.path.join(tmp, 'ev'), VERIF_BUILD_TAG='self_' + os.path.basename(tmp), VERIF_NO_NATIVE='1')
+            r = subprocess.run([os.path.join(VERIF, 'check'), prop, '--tier', 'quick'], env=env, stdout=subprocess.PIPE, stderr=subprocess.STDOUT)
+            if r.returncode != 0: res['harmless_red'].append(dict(header=hdr, exit=r.returncode, tail=r.stdout.decode('utf-8', 'replace')[-300:]))
+        finally:
+            shutil.rmtree(tmp, ignore_errors=True)
+            shutil.rmtree(os.path.join(VERIF, 'build', 'self_' + os.path.basename(tmp)), ignore_errors=True)
     return res
